@@ -3,7 +3,8 @@
 From Coq Require Import List Arith Bool NArith ZArith.
 From Verif.lib Require Import FinSet.
 From Verif.C04 Require Import Model Proofs ProofsMesh.
-From Verif.C03 Require Import Model Proofs Proofs2.
+From Verif.C03 Require Import Model Proofs Proofs2 Proofs7.
+From Verif.C04 Require Children.
 Import ListNotations.
 
 (* p = 2, two spans, the first one refined once: AF_0 = {1,2,3}, AF_1 = {0,1} *)
@@ -157,3 +158,16 @@ Example ex_kernels :
   sm_mul Z Z.add Z.mul (sm_transpose Z 4 P4) P4
   = [[(0%N, 20%Z); (1%N, 4%Z)]; [(0%N, 4%Z); (1%N, 14%Z); (2%N, 6%Z)]; [(1%N, 6%Z); (2%N, 14%Z); (3%N, 4%Z)]; [(2%N, 4%Z); (3%N, 20%Z)]].
 Proof. vm_compute. reflexivity. Qed.
+
+(* hassemble_entry_pattern_partial: the stored pattern of P4 is exactly C04's children pattern of the axis (p = 2, [3;1;3]):
+   evaluated for all coarse functions j and all fine rows i (a test of the hypothesis pattern_ok on the example) *)
+Example ex_pattern_ok :
+  forallb (fun j => forallb (fun i =>
+     Bool.eqb (existsb (Nat.eqb i) (children_1d Z pm1 0 0 j)) (Children.is_child_1d (mk_axis 2 [3; 1; 3]) j i)) (seq 0 8)) (seq 0 4) = true.
+Proof. vm_compute. reflexivity. Qed.
+
+(* kron2_entry: P4 (x) P4, entry (2*6+1, 1*4+0) = P4[2,1] * P4[1,0] = 3 * 2 *)
+Example ex_kron :
+  sm_get Z 0%Z (kron2 Z Z.mul P4 P4 4%N) (N.of_nat (2 * 6 + 1)) (1 * 4 + 0)%N = 6%Z
+  /\ length (kron2 Z Z.mul P4 P4 4%N) = 36.
+Proof. vm_compute. split; reflexivity. Qed.
